@@ -65,6 +65,7 @@ type unbufObs struct {
 	state      string
 	scopes     int
 	labels     int
+	evalDepth  int
 	senderDone bool // the blocked send completed
 	parked     bool
 	stateAt    []string
@@ -148,6 +149,7 @@ func runUnbuffered(mode string, k int, sentinel error) (*unbufObs, error) {
 	}
 	o.state = unbufState(vm)
 	o.scopes, o.labels = otto.VerifRestState(vm)
+	o.evalDepth = otto.VerifEvalDepth(vm)
 	return o, nil
 }
 
@@ -164,8 +166,8 @@ func (o *unbufObs) render(sentinel interface{}) string {
 		}
 		deliv = strings.Join(parts, ", ")
 	}
-	return fmt.Sprintf("run=%s; delivered=%s; blocked_send_completed=%v; steps_after_exit=%d; rest=scopes=%d labels=%d; state={%s}",
-		o.out.outcome(sentinel), deliv, o.senderDone, o.stepsAfter, o.scopes, o.labels, o.state)
+	return fmt.Sprintf("run=%s; delivered=%s; blocked_send_completed=%v; steps_after_exit=%d; rest=scopes=%d labels=%d%s; state={%s}",
+		o.out.outcome(sentinel), deliv, o.senderDone, o.stepsAfter, o.scopes, o.labels, evalLeak(o.evalDepth), o.state)
 }
 
 func runUnbufferedFamily(r *engine.Run) {
